@@ -760,6 +760,10 @@ class Normalizer:
         if op == "sdiv":
             return p_had(self.nf(a[0]), p_pow(self.scalar(a[1]), -1))
         if op == "mul":
+            for x_, y_ in ((a[0], a[1]), (a[1], a[0])):
+                if isinstance(x_, Term) and x_.op == "outer" and len(x_.args) == 2:
+                    # (u v^T) * A elementwise = dg(u) @ A @ dg(v)
+                    return self.nf(Term("matmul", Term("dg", x_.args[0]), Term("matmul", y_, Term("dg", x_.args[1]))))
             return p_had(self.nf(a[0]), self.nf(a[1]))
         if op == "div":
             return p_had(self.nf(a[0]), p_pow(self.nf(a[1]), -1))
